@@ -188,6 +188,81 @@ func checkC05(p *Prog, r *Report) {
 	} else {
 		r.unresolved("E5.pending-initial", "core.NewBuildState")
 	}
+	// ---- (1c) worker slots: what a worker acquires before an action it gives back after it, however the action ended
+	{
+		rl := "E5.worker-slot-released"
+		isRel := func(i ssa.Instruction) bool {
+			cc := callCommon(i)
+			return cc != nil && calleeName(cc) == "(plz.limiter).Release"
+		}
+		isAcq := func(i ssa.Instruction) bool {
+			cc := callCommon(i)
+			return cc != nil && calleeName(cc) == "(plz.limiter).Acquire"
+		}
+		var releasers, acquirers []*ssa.Function
+		for _, f := range withAnon(a.run) {
+			hasR, hasA := false, false
+			eachInstr(f, false, func(_ *ssa.Function, i ssa.Instruction) {
+				hasR = hasR || isRel(i)
+				hasA = hasA || isAcq(i)
+			})
+			if hasR {
+				releasers = append(releasers, f)
+			}
+			if hasA {
+				acquirers = append(acquirers, f)
+			}
+		}
+		if len(releasers) == 0 || len(acquirers) == 0 {
+			r.unresolved(rl, "closures of plz.Run that acquire / release a limiter slot")
+		}
+		for _, f := range releasers {
+			r.check(!existsPath(f, nil, nil, isRel), rl, f.Name()+" releases the slot on every path", p.pos(f.Pos()), fnName(f), "no path from entry to return avoids limiter.Release", "a worker can finish an action without giving its slot back (e.g. the early return for a target that did not build comes before the release): after as many failed actions as there are worker slots nothing can start any more and a --keep_going build never terminates")
+		}
+		// every worker that acquires defers a releaser before anything can return or panic
+		for _, f := range withAnon(a.run) {
+			eachInstr(f, false, func(_ *ssa.Function, i ssa.Instruction) {
+				cc := callCommon(i)
+				if cc == nil {
+					return
+				}
+				g := resolveCalleeDeep(cc)
+				isA := false
+				for _, af := range acquirers {
+					if g == af {
+						isA = true
+					}
+				}
+				if _, isDefer := i.(*ssa.Defer); !isA || isDefer {
+					return
+				}
+				paired := false
+				eachInstr(f, false, func(_ *ssa.Function, j ssa.Instruction) {
+					d, ok := j.(*ssa.Defer)
+					if !ok {
+						return
+					}
+					dg := resolveCalleeDeep(&d.Call)
+					for _, rf := range releasers {
+						if dg == rf && instrDominates(i, d) && !existsPath(f, i, nil, func(k ssa.Instruction) bool { return k == ssa.Instruction(d) }) {
+							// and no call between the acquire and the defer
+							calls := 0
+							for _, k := range i.Block().Instrs {
+								if kc := callCommon(k); kc != nil && k != i && k != ssa.Instruction(d) && instrDominates(i, k) && instrDominates(k, d) {
+									calls++
+								}
+							}
+							if calls == 0 {
+								paired = true
+							}
+						}
+					}
+				})
+				r.check(paired, rl, "the slot acquired in "+f.Name()+" is released by a deferred call", p.pos(i.Pos()), fnName(f), "acquire is immediately followed by defer of the releasing closure", "a worker acquires a slot without deferring its release straight away: a panic or early return in between leaks the slot")
+			})
+		}
+	}
+	p.cycleWatchRules(r, a)
 	// ---- (2) consumers
 	rule = "E5.taskdone-exactly-once"
 	consumers := map[*ssa.Function]string{}
@@ -1063,4 +1138,198 @@ func (p *Prog) reportedOnce(r *Report, a *schedAnchors) {
 // eventCountNilReturns is a placeholder for a finer rule (kept conservative: not used for verdicts).
 func eventCountNilReturns(fn *ssa.Function, w func(i ssa.Instruction) (int, int)) (int, int) {
 	return eventCount(fn, w)
+}
+
+// cycleWatchRules: a cycle in the graph ends the build only through the inactivity watch in forwardResults (nothing is
+// being built -> timer -> cycle check). (a) every result that passes through either puts its target into the
+// being-built set or takes it out: no result (in particular a failure, which is logged by label without a target) may
+// slip through leaving its target in the set, or the set never empties and the watch never runs again. (b) the timer
+// is re-armed whenever the set is empty, with no other state deciding it (a one-shot watch misses a cycle that closes
+// after the first quiet spell). (c) whoever waits for a target to be built is woken when it fails, not only when it
+// succeeds.
+func (p *Prog) cycleWatchRules(r *Report, a *schedAnchors) {
+	fr := p.Fn("core", "BuildState.forwardResults")
+	if fr == nil {
+		r.unresolved("E5.cycle-watch", "core.BuildState.forwardResults")
+		return
+	}
+	// the being-built set: the map local to forwardResults that is both inserted into and deleted from
+	var set ssa.Value
+	var ins []ssa.Instruction
+	var dels []ssa.Instruction
+	eachInstr(fr, false, func(_ *ssa.Function, i ssa.Instruction) {
+		switch x := i.(type) {
+		case *ssa.MapUpdate:
+			if _, ok := x.Map.(*ssa.MakeMap); ok {
+				set = x.Map
+				ins = append(ins, x)
+			}
+		case *ssa.Call:
+			if b, ok := x.Call.Value.(*ssa.Builtin); ok && b.Name() == "delete" {
+				dels = append(dels, x)
+			}
+		}
+	})
+	rule := "E5.cycle-watch"
+	if set == nil || len(dels) == 0 {
+		r.unresolved(rule, "the being-built set (a local map with insertions and deletions) in forwardResults")
+		return
+	}
+	// loop header: the block that tests len(set)
+	var head *ssa.BasicBlock
+	var reset *ssa.Call
+	eachInstr(fr, false, func(_ *ssa.Function, i ssa.Instruction) {
+		if c, ok := i.(*ssa.Call); ok {
+			if b, ok := c.Call.Value.(*ssa.Builtin); ok && b.Name() == "len" && c.Call.Args[0] == set {
+				head = c.Block()
+			}
+			if calleeName(&c.Call) == "(*time.Timer).Reset" {
+				reset = c
+			}
+		}
+	})
+	if head == nil || reset == nil {
+		r.unresolved(rule, "the len(set) == 0 test and the timer Reset in forwardResults")
+		return
+	}
+	isSetOp := func(i ssa.Instruction) bool {
+		for _, x := range ins {
+			if x == i {
+				return true
+			}
+		}
+		for _, x := range dels {
+			if x == i && x.(*ssa.Call).Call.Args[0] == set {
+				return true
+			}
+		}
+		return false
+	}
+	// results with an "active" status and no target (parsing) are legitimately not tracked: a way round the loop is
+	// acceptable if it takes the IsActive() == true edge
+	activeEntry := map[ssa.Instruction]bool{}
+	for _, b := range fr.Blocks {
+		iff, ok := lastIf(b)
+		if !ok {
+			continue
+		}
+		cond := iff.Cond
+		neg := false
+		if u, ok := cond.(*ssa.UnOp); ok && u.Op == token.NOT {
+			cond, neg = u.X, true
+		}
+		c, ok := cond.(*ssa.Call)
+		if !ok || calleeName(&c.Call) != "(core.BuildResultStatus).IsActive" {
+			continue
+		}
+		succ := b.Succs[0]
+		if neg {
+			succ = b.Succs[1]
+		}
+		if len(succ.Preds) == 1 && len(succ.Instrs) > 0 {
+			activeEntry[succ.Instrs[0]] = true
+		}
+	}
+	last := head.Instrs[len(head.Instrs)-1]
+	slips := existsPath(fr, last, head.Instrs[0], func(i ssa.Instruction) bool { return isSetOp(i) || activeEntry[i] })
+	r.check(!slips, rule, "every forwarded result updates the being-built set", p.pos(head.Instrs[0].Pos()), fnName(fr), "every way round the loop deletes the result's entry, inserts it, or is on the IsActive() edge", "a result can pass through forwardResults without its target being put into or taken out of the being-built set (results logged by label only, i.e. every failure, have no target): a failed target stays in the set for ever, the set never empties, the inactivity timer is never armed again, and with --keep_going a dependency cycle elsewhere hangs the build")
+	// (b) the Reset is guarded by the emptiness of the set and nothing else
+	extra := ""
+	for _, f := range factsAt(reset) {
+		switch v := f.V.(type) {
+		case *ssa.BinOp:
+			if c, ok := v.X.(*ssa.Call); ok {
+				if b, ok := c.Call.Value.(*ssa.Builtin); ok && b.Name() == "len" && c.Call.Args[0] == set {
+					continue
+				}
+			}
+			extra = v.String()
+		case *ssa.Phi, *ssa.UnOp, *ssa.Call:
+			extra = v.String()
+		}
+	}
+	r.check(extra == "", rule, "the inactivity timer is armed whenever nothing is being built", p.pos(reset.Pos()), fnName(fr), "timer.Reset is guarded by len(set) == 0 only", "the inactivity timer is armed only under an additional condition ("+extra+"), e.g. once per build: a cycle that closes after an earlier quiet spell (waiting for the repo lock, one slow parse) is never looked for, and the build hangs")
+	// (c) waiters on pendingTargets are woken on failure
+	rule = "E5.waiters-woken-on-failure"
+	if a.build == nil {
+		r.unresolved(rule, "build.Build")
+		return
+	}
+	// functions that close a channel taken from pendingTargets, and under which constant statuses
+	type closer struct {
+		fn       *ssa.Function
+		statuses map[int64]bool // nil = unconditional
+	}
+	var closers []closer
+	for _, f := range p.Funcs("core") {
+		eachInstr(f, false, func(_ *ssa.Function, i ssa.Instruction) {
+			c, ok := i.(*ssa.Call)
+			if !ok {
+				return
+			}
+			b, ok := c.Call.Value.(*ssa.Builtin)
+			if !ok || b.Name() != "close" || !tagsOf(c.Call.Args[0], SliceOpts{})["core.stateProgress.pendingTargets"] {
+				return
+			}
+			cl := closer{fn: f}
+			justified := blockJustified(c.Block(), func(ft Fact) bool {
+				bo, ok := ft.V.(*ssa.BinOp)
+				if !ok || bo.Op != token.EQL || !ft.Val {
+					return false
+				}
+				if _, isP := bo.X.(*ssa.Parameter); !isP {
+					return false
+				}
+				if k, isC := constInt(bo.Y); isC {
+					if cl.statuses == nil {
+						cl.statuses = map[int64]bool{}
+					}
+					cl.statuses[int64(k)] = true
+					return true
+				}
+				return false
+			}, 4)
+			_ = justified
+			closers = append(closers, cl)
+		})
+	}
+	if len(closers) == 0 {
+		r.unresolved(rule, "functions of package core that close a pendingTargets channel")
+		return
+	}
+	// the failure branch of Build: from the LogBuildError call to the return
+	var fail ssa.Instruction
+	lbe := p.Fn("core", "BuildState.LogBuildError")
+	for _, ci := range callsInFn(a.build, lbe) {
+		fail = ci
+	}
+	if fail == nil {
+		r.unresolved(rule, "LogBuildError call on the failure branch of build.Build")
+		return
+	}
+	woken := false
+	eachInstr(a.build, false, func(_ *ssa.Function, i ssa.Instruction) {
+		cc := callCommon(i)
+		if cc == nil || !(i == fail || existsPath(a.build, fail, i, nil)) {
+			return
+		}
+		g := cc.StaticCallee()
+		for _, h := range p.closure([]*ssa.Function{g}, 2, nil) {
+			for _, cl := range closers {
+				if cl.fn != h {
+					continue
+				}
+				if cl.statuses == nil {
+					woken = true
+				} else if h == g {
+					for _, arg := range cc.Args {
+						if k, isC := constInt(arg); isC && cl.statuses[int64(k)] && typeString(arg.Type()) == "core.BuildResultStatus" {
+							woken = true
+						}
+					}
+				}
+			}
+		}
+	})
+	r.check(woken, rule, "a failed build wakes those waiting for the target to be built", p.pos(fail.Pos()), fnName(a.build), "the failure branch of Build reaches a close of the target's pendingTargets channel", "when a target fails to build, the channel that WaitForBuiltTarget parks on (pendingTargets) is closed only for TargetBuilt/TargetCached: a parse that subincludes the failed target never wakes, its pending unit is never returned, and with --keep_going the build never terminates")
 }
